@@ -1,6 +1,7 @@
 //! Foreign-master record level helpers and harnesses (child of `bmc::foreign_master`).
 #![allow(dead_code, unused_imports)]
 use super::*;
+use crate::datastructures::common::ClockIdentity;
 
 /// number of foreign masters recorded
 pub(crate) fn list_len(l: &ForeignMasterList) -> usize {
@@ -116,5 +117,416 @@ fn c03_foreign_master_list_ageing() {
     kani::cover!(!keep1 && keep2, "older master expires while the newer stays");
     kani::cover!(keep1 && !keep2, "second master expires first");
     core::mem::forget(it);
+    core::mem::forget(l);
+}
+
+fn plain_announce(port_number: u16, seq: u16) -> AnnounceMessage {
+    let mut h = Header::new(1);
+    h.source_port_identity = PortIdentity { clock_identity: ClockIdentity([9, 9, 9, 9, 9, 9, 9, 9]), port_number };
+    h.sequence_id = seq;
+    AnnounceMessage {
+        header: h,
+        origin_timestamp: Default::default(),
+        current_utc_offset: 37,
+        grandmaster_priority_1: 128,
+        grandmaster_clock_quality: Default::default(),
+        grandmaster_priority_2: 128,
+        grandmaster_identity: ClockIdentity([9, 9, 9, 9, 9, 9, 9, 9]),
+        steps_removed: 0,
+        time_source: Default::default(),
+    }
+}
+
+// @harness c03_foreign_master_list_step_age
+// @props C03
+// @tier quick
+// @variant lists2
+// @timeout 900
+// @mem 8
+// @functions ForeignMasterList::step_age, ForeignMaster::step_age, ForeignMaster::purge_old_messages, ArrayVec::remove, ArrayVec::retain
+// @bounds stand-alone list with capacities scaled 8 -> 2 holding two masters with one concrete Announce each, symbolic ages (0 .. 2^35 ns), one ageing step of symbolic length (0 .. 2^35 ns); announce interval 1 s
+// @note the walk-and-remove loop of the list: no panic (index arithmetic while removing), a master is dropped exactly when its only Announce is older than four intervals, survivors keep their order
+#[kani::proof]
+#[kani::unwind(6)]
+fn c03_foreign_master_list_step_age() {
+    let own = PortIdentity { clock_identity: ClockIdentity([1, 1, 1, 1, 1, 1, 1, 1]), port_number: 1 };
+    let mut l = ForeignMasterList::new(ti_one_second(), own);
+    let m1 = plain_announce(1, 10);
+    let m2 = plain_announce(2, 20);
+    let a1 = any_duration_bits(68);
+    let a2 = any_duration_bits(68);
+    kani::assume(a1 >= Duration::from_fixed_nanos(fixed::types::I96F32::from_bits(0)) && a2 >= Duration::from_fixed_nanos(fixed::types::I96F32::from_bits(0)));
+    // the first Announce of a new master is stored with age zero whatever `age` says (ForeignMaster::new); the
+    // ages are then set directly, as repeated step_age calls would have left them
+    l.register_announce_message(&m1.header, &m1, a1);
+    l.register_announce_message(&m2.header, &m2, a2);
+    assert!(list_len(&l) == 2);
+    l.foreign_masters[0].announce_messages[0].age = a1;
+    l.foreign_masters[1].announce_messages[0].age = a2;
+    kani::cover!(true, "two masters registered");
+    let step = any_duration_bits(68);
+    kani::assume(step >= Duration::from_fixed_nanos(fixed::types::I96F32::from_bits(0)));
+    l.step_age(step);
+    kani::cover!(true, "aged");
+    let window = Duration::from_fixed_nanos(fixed::types::I96F32::from_bits(4_000_000_000i128 << 32));
+    let keep1 = a1 + step < window;
+    let keep2 = a2 + step < window;
+    assert!(list_len(&l) == (keep1 as usize) + (keep2 as usize), "a master must be dropped exactly when its newest Announce is older than four announce intervals");
+    if keep1 {
+        assert!(l.foreign_masters[0].foreign_master_port_identity.port_number == 1, "survivors must keep their order");
+    } else if keep2 {
+        assert!(l.foreign_masters[0].foreign_master_port_identity.port_number == 2);
+    }
+    kani::cover!(!keep1 && keep2, "older master expires while the newer stays");
+    kani::cover!(keep1 && !keep2, "second master expires first");
+    kani::cover!(!keep1 && !keep2, "both expire");
+    core::mem::forget(l);
+}
+
+// ================================================================================================
+// C06 at list level: one operation from an arbitrary list state (inductive step). The payload of the stored
+// Announces is concrete (plain_announce); what the list logic depends on - which master, sequence ids, ages,
+// stepsRemoved, own / foreign clock identity, record counts - is symbolic. Capacities are scaled 8 -> 2.
+//
+// Invariant assumed of the pre-state and asserted of the post-state (inv): at most 2 records with distinct
+// identities, none with the own clock identity, every record holds 1..=2 messages, every stored age is in
+// [0, window) where window = 4 announce intervals (ages only change in step_age, which purges).
+// ================================================================================================
+const WINDOW_BITS: i128 = 4_000_000_000i128 << 32;
+
+fn dur(bits: i128) -> Duration { Duration::from_fixed_nanos(fixed::types::I96F32::from_bits(bits)) }
+
+struct ListModel {
+    n: usize,
+    c: [usize; 2],
+    age: [[i128; 2]; 2],
+    seq: [[u16; 2]; 2],
+}
+
+/// list of the given (concrete) shape - `n` records holding `cs[i]` messages - with symbolic ages and sequence ids
+fn any_list(own: PortIdentity, n: usize, cs: [usize; 2]) -> (ForeignMasterList, ListModel) {
+    let mut l = ForeignMasterList::new(ti_one_second(), own);
+    let mut m = ListModel { n, c: [0; 2], age: [[0; 2]; 2], seq: [[0; 2]; 2] };
+    let mut i = 0;
+    while i < 2 {
+        if i < n {
+            let c: usize = cs[i];
+            m.c[i] = c;
+            let a0: i128 = kani::any();
+            let a1: i128 = kani::any();
+            kani::assume(a0 >= 0 && a0 < WINDOW_BITS && a1 >= 0 && a1 < WINDOW_BITS);
+            m.age[i] = [a0, a1];
+            m.seq[i] = [kani::any(), kani::any()];
+            let first = plain_announce(1 + i as u16, m.seq[i][0]);
+            let mut fm = ForeignMaster::new(first.header, first);
+            fm.announce_messages[0].age = dur(a0);
+            if c == 2 {
+                let second = plain_announce(1 + i as u16, m.seq[i][1]);
+                fm.announce_messages.push(ForeignAnnounceMessage { header: second.header, message: second, age: dur(a1) });
+            }
+            l.foreign_masters.push(fm);
+        }
+        i += 1;
+    }
+    (l, m)
+}
+
+/// record `i` of the list holds exactly the given (sequence id, age) pairs, in order, and belongs to port `pn`
+fn record_is(l: &ForeignMasterList, i: usize, pn: u16, k: usize, seq: [u16; 2], age: [i128; 2]) -> bool {
+    let r = &l.foreign_masters[i];
+    r.foreign_master_port_identity.port_number == pn
+        && r.announce_messages.len() == k
+        && (k < 1 || (r.announce_messages[0].header.sequence_id == seq[0] && r.announce_messages[0].age == dur(age[0])))
+        && (k < 2 || (r.announce_messages[1].header.sequence_id == seq[1] && r.announce_messages[1].age == dur(age[1])))
+}
+
+fn own_identity() -> PortIdentity { PortIdentity { clock_identity: ClockIdentity([1, 1, 1, 1, 1, 1, 1, 1]), port_number: 1 } }
+
+// @harness c06_list_step_age_n01
+// @props C06 C03
+// @tier quick
+// @variant lists2
+// @timeout 1500
+// @mem 12
+// @functions ForeignMasterList::step_age, ForeignMaster::step_age, ForeignMaster::purge_old_messages, ArrayVec::retain, ArrayVec::remove
+// @bounds one step_age(step) with any step in [0, 2^36 ns) from an arbitrary list state satisfying the invariant (list shape none, 1x[1], 1x[2]: records x messages per record; any ages in [0, window), any sequence ids); announce interval 1 s; capacities scaled 8 -> 2; stored Announce payloads concrete
+// @note expiry half of C06: a message survives iff age + step < 4 announce intervals, with its age advanced by exactly step; a record survives iff one of its messages does; survivors keep their order; the invariant is re-established. By induction over BMCA runs a master that falls silent is gone at the first run at or after four intervals; one that keeps announcing is never dropped.
+#[kani::proof]
+#[kani::unwind(9)]
+fn c06_list_step_age_n01() {
+    step_age_case(0, [0, 0]);
+    step_age_case(1, [1, 0]);
+    step_age_case(1, [2, 0]);
+}
+
+// @harness c06_list_step_age_n2_11
+// @props C06 C03
+// @tier quick
+// @variant lists2
+// @timeout 1500
+// @mem 12
+// @functions ForeignMasterList::step_age, ForeignMaster::step_age, ForeignMaster::purge_old_messages, ArrayVec::retain, ArrayVec::remove
+// @bounds one step_age(step) with any step in [0, 2^36 ns) from an arbitrary list state satisfying the invariant (list shape 2x[1,1]: records x messages per record; any ages in [0, window), any sequence ids); announce interval 1 s; capacities scaled 8 -> 2; stored Announce payloads concrete
+// @note expiry half of C06: a message survives iff age + step < 4 announce intervals, with its age advanced by exactly step; a record survives iff one of its messages does; survivors keep their order; the invariant is re-established. By induction over BMCA runs a master that falls silent is gone at the first run at or after four intervals; one that keeps announcing is never dropped.
+#[kani::proof]
+#[kani::unwind(9)]
+fn c06_list_step_age_n2_11() {
+    step_age_case(2, [1, 1]);
+}
+
+// @harness c06_list_step_age_n2_12
+// @props C06 C03
+// @tier quick
+// @variant lists2
+// @timeout 1500
+// @mem 12
+// @functions ForeignMasterList::step_age, ForeignMaster::step_age, ForeignMaster::purge_old_messages, ArrayVec::retain, ArrayVec::remove
+// @bounds one step_age(step) with any step in [0, 2^36 ns) from an arbitrary list state satisfying the invariant (list shape 2x[1,2]: records x messages per record; any ages in [0, window), any sequence ids); announce interval 1 s; capacities scaled 8 -> 2; stored Announce payloads concrete
+// @note expiry half of C06: a message survives iff age + step < 4 announce intervals, with its age advanced by exactly step; a record survives iff one of its messages does; survivors keep their order; the invariant is re-established. By induction over BMCA runs a master that falls silent is gone at the first run at or after four intervals; one that keeps announcing is never dropped.
+#[kani::proof]
+#[kani::unwind(9)]
+fn c06_list_step_age_n2_12() {
+    step_age_case(2, [1, 2]);
+}
+
+// @harness c06_list_step_age_n2_21
+// @props C06 C03
+// @tier quick
+// @variant lists2
+// @timeout 1500
+// @mem 12
+// @functions ForeignMasterList::step_age, ForeignMaster::step_age, ForeignMaster::purge_old_messages, ArrayVec::retain, ArrayVec::remove
+// @bounds one step_age(step) with any step in [0, 2^36 ns) from an arbitrary list state satisfying the invariant (list shape 2x[2,1]: records x messages per record; any ages in [0, window), any sequence ids); announce interval 1 s; capacities scaled 8 -> 2; stored Announce payloads concrete
+// @note expiry half of C06: a message survives iff age + step < 4 announce intervals, with its age advanced by exactly step; a record survives iff one of its messages does; survivors keep their order; the invariant is re-established. By induction over BMCA runs a master that falls silent is gone at the first run at or after four intervals; one that keeps announcing is never dropped.
+#[kani::proof]
+#[kani::unwind(9)]
+fn c06_list_step_age_n2_21() {
+    step_age_case(2, [2, 1]);
+}
+
+// @harness c06_list_step_age_n2_22
+// @props C06 C03
+// @tier quick
+// @variant lists2
+// @timeout 1500
+// @mem 12
+// @functions ForeignMasterList::step_age, ForeignMaster::step_age, ForeignMaster::purge_old_messages, ArrayVec::retain, ArrayVec::remove
+// @bounds one step_age(step) with any step in [0, 2^36 ns) from an arbitrary list state satisfying the invariant (list shape 2x[2,2]: records x messages per record; any ages in [0, window), any sequence ids); announce interval 1 s; capacities scaled 8 -> 2; stored Announce payloads concrete
+// @note expiry half of C06: a message survives iff age + step < 4 announce intervals, with its age advanced by exactly step; a record survives iff one of its messages does; survivors keep their order; the invariant is re-established. By induction over BMCA runs a master that falls silent is gone at the first run at or after four intervals; one that keeps announcing is never dropped.
+#[kani::proof]
+#[kani::unwind(9)]
+fn c06_list_step_age_n2_22() {
+    step_age_case(2, [2, 2]);
+}
+
+
+/// every list shape within the scaled capacities: (records, messages per record)
+const SHAPES: [(usize, [usize; 2]); 7] = [(0, [0, 0]), (1, [1, 0]), (1, [2, 0]), (2, [1, 1]), (2, [1, 2]), (2, [2, 1]), (2, [2, 2])];
+
+fn step_age_case(n: usize, cs: [usize; 2]) {
+    let (mut l, m) = any_list(own_identity(), n, cs);
+    let step: i128 = kani::any();
+    kani::assume(step >= 0 && step < (1i128 << 68));
+    l.step_age(dur(step));
+    // reference
+    let mut out = 0usize;
+    let mut i = 0;
+    while i < 2 {
+        if i < m.n {
+            let mut k = 0usize;
+            let mut seq = [0u16; 2];
+            let mut age = [0i128; 2];
+            let mut j = 0;
+            while j < 2 {
+                if j < m.c[i] && m.age[i][j] + step < WINDOW_BITS {
+                    seq[k] = m.seq[i][j];
+                    age[k] = m.age[i][j] + step;
+                    k += 1;
+                }
+                j += 1;
+            }
+            if k > 0 {
+                assert!(out < l.foreign_masters.len(), "C06: a master with a message inside the window was dropped");
+                assert!(record_is(&l, out, 1 + i as u16, k, seq, age), "C06: surviving record differs from (messages younger than four intervals, aged by the step, in order)");
+                out += 1;
+            }
+        }
+        i += 1;
+    }
+    assert!(l.foreign_masters.len() == out, "C06: a master whose messages are all older than four announce intervals was kept");
+    kani::cover!(out < m.n, "a record expires");
+    kani::cover!(m.n > 0 && out == m.n, "every record survives");
+    core::mem::forget(l);
+}
+
+// @harness c06_list_take_qualified
+// @props C06 C03
+// @tier quick
+// @variant lists2
+// @timeout 1500
+// @mem 12
+// @functions ForeignMasterList::take_qualified_announce_messages, ArrayVec::remove, ArrayVec::push, ArrayVec::into_iter
+// @bounds one take_qualified_announce_messages() from an arbitrary list state satisfying the invariant (as c06_list_step_age)
+// @note qualification half of C06: a master yields a message (its most recent one) iff its record holds at least two messages - all of which are younger than four announce intervals by the invariant; a record with a single message yields nothing and is left untouched; nothing else changes
+#[kani::proof]
+#[kani::unwind(9)]
+fn c06_list_take_qualified() {
+    let mut k = 0;
+    while k < 7 {
+        take_case(SHAPES[k].0, SHAPES[k].1);
+        k += 1;
+    }
+}
+
+fn take_case(n: usize, cs: [usize; 2]) {
+    let (mut l, m) = any_list(own_identity(), n, cs);
+    let mut it = l.take_qualified_announce_messages();
+    // the walk is from the last record to the first
+    let mut i = 2;
+    while i > 0 {
+        i -= 1;
+        if i < m.n && m.c[i] == 2 {
+            let x = it.next();
+            assert!(x.is_some(), "C06: a master with two Announces inside the window did not qualify");
+            let x = x.unwrap();
+            assert!(x.header.source_port_identity.port_number == 1 + i as u16 && x.header.sequence_id == m.seq[i][1] && x.age == dur(m.age[i][1]),
+                "C06: the qualified message is not the master's most recent one");
+            core::mem::forget(x);
+        }
+    }
+    assert!(it.next().is_none(), "C06: a master qualified on the strength of a single Announce");
+    core::mem::forget(it);
+    assert!(l.foreign_masters.len() == m.n);
+    let mut i = 0;
+    while i < 2 {
+        if i < m.n {
+            assert!(record_is(&l, i, 1 + i as u16, 1, m.seq[i], m.age[i]), "C06: take must leave exactly the older message of a qualified master / the single message of an unqualified one");
+        }
+        i += 1;
+    }
+    kani::cover!(m.n == 2 && m.c[0] == 2 && m.c[1] == 2, "two qualified masters");
+    kani::cover!(m.n == 2 && m.c[0] == 1 && m.c[1] == 1, "no qualified master");
+    core::mem::forget(l);
+}
+
+// @harness c06_list_register_n01
+// @props C06 C07:thorough C03
+// @tier quick
+// @variant lists2
+// @timeout 1800
+// @mem 16
+// @functions ForeignMasterList::register_announce_message, ForeignMasterList::is_announce_message_qualified, ForeignMaster::register_announce_message, ForeignMaster::purge_old_messages, ForeignMaster::new, ArrayVec::try_push, ArrayVec::remove
+// @bounds one register_announce_message(header, announce, age) from an arbitrary list state satisfying the invariant; the Announce comes from record 0, record 1, a third master or the own clock (symbolic choice), with any sequence id, any stepsRemoved and any age in [0, window); capacities scaled 8 -> 2
+// @note admission half of C06: own clock identity, stepsRemoved >= 255 and sequence ids not newer (modulo 2^16, window 2^15 - 1) than the record's latest leave the list unchanged; an admitted Announce of a known master is appended with the given age (oldest one evicted when the record is full) - including across 65535 -> 0; a new master gets a one-message record with age zero if there is room and is ignored otherwise (capacity: only the necessary-condition half)
+#[kani::proof]
+#[kani::unwind(9)]
+fn c06_list_register_n01() {
+    register_case(0, [0, 0]);
+    register_case(1, [1, 0]);
+    register_case(1, [2, 0]);
+}
+
+// @harness c06_list_register_n2_11
+// @props C06 C07:thorough C03
+// @tier quick
+// @variant lists2
+// @timeout 1800
+// @mem 16
+// @functions ForeignMasterList::register_announce_message, ForeignMasterList::is_announce_message_qualified, ForeignMaster::register_announce_message, ForeignMaster::purge_old_messages, ForeignMaster::new, ArrayVec::try_push, ArrayVec::remove
+// @bounds one register_announce_message(header, announce, age) from an arbitrary list state satisfying the invariant; the Announce comes from record 0, record 1, a third master or the own clock (symbolic choice), with any sequence id, any stepsRemoved and any age in [0, window); capacities scaled 8 -> 2
+// @note admission half of C06: own clock identity, stepsRemoved >= 255 and sequence ids not newer (modulo 2^16, window 2^15 - 1) than the record's latest leave the list unchanged; an admitted Announce of a known master is appended with the given age (oldest one evicted when the record is full) - including across 65535 -> 0; a new master gets a one-message record with age zero if there is room and is ignored otherwise (capacity: only the necessary-condition half)
+#[kani::proof]
+#[kani::unwind(9)]
+fn c06_list_register_n2_11() {
+    register_case(2, [1, 1]);
+}
+
+// @harness c06_list_register_n2_12
+// @props C06 C07:thorough C03
+// @tier quick
+// @variant lists2
+// @timeout 1800
+// @mem 16
+// @functions ForeignMasterList::register_announce_message, ForeignMasterList::is_announce_message_qualified, ForeignMaster::register_announce_message, ForeignMaster::purge_old_messages, ForeignMaster::new, ArrayVec::try_push, ArrayVec::remove
+// @bounds one register_announce_message(header, announce, age) from an arbitrary list state satisfying the invariant; the Announce comes from record 0, record 1, a third master or the own clock (symbolic choice), with any sequence id, any stepsRemoved and any age in [0, window); capacities scaled 8 -> 2
+// @note admission half of C06: own clock identity, stepsRemoved >= 255 and sequence ids not newer (modulo 2^16, window 2^15 - 1) than the record's latest leave the list unchanged; an admitted Announce of a known master is appended with the given age (oldest one evicted when the record is full) - including across 65535 -> 0; a new master gets a one-message record with age zero if there is room and is ignored otherwise (capacity: only the necessary-condition half)
+#[kani::proof]
+#[kani::unwind(9)]
+fn c06_list_register_n2_12() {
+    register_case(2, [1, 2]);
+}
+
+// @harness c06_list_register_n2_21
+// @props C06 C07:thorough C03
+// @tier quick
+// @variant lists2
+// @timeout 1800
+// @mem 16
+// @functions ForeignMasterList::register_announce_message, ForeignMasterList::is_announce_message_qualified, ForeignMaster::register_announce_message, ForeignMaster::purge_old_messages, ForeignMaster::new, ArrayVec::try_push, ArrayVec::remove
+// @bounds one register_announce_message(header, announce, age) from an arbitrary list state satisfying the invariant; the Announce comes from record 0, record 1, a third master or the own clock (symbolic choice), with any sequence id, any stepsRemoved and any age in [0, window); capacities scaled 8 -> 2
+// @note admission half of C06: own clock identity, stepsRemoved >= 255 and sequence ids not newer (modulo 2^16, window 2^15 - 1) than the record's latest leave the list unchanged; an admitted Announce of a known master is appended with the given age (oldest one evicted when the record is full) - including across 65535 -> 0; a new master gets a one-message record with age zero if there is room and is ignored otherwise (capacity: only the necessary-condition half)
+#[kani::proof]
+#[kani::unwind(9)]
+fn c06_list_register_n2_21() {
+    register_case(2, [2, 1]);
+}
+
+// @harness c06_list_register_n2_22
+// @props C06 C07:thorough C03
+// @tier quick
+// @variant lists2
+// @timeout 1800
+// @mem 16
+// @functions ForeignMasterList::register_announce_message, ForeignMasterList::is_announce_message_qualified, ForeignMaster::register_announce_message, ForeignMaster::purge_old_messages, ForeignMaster::new, ArrayVec::try_push, ArrayVec::remove
+// @bounds one register_announce_message(header, announce, age) from an arbitrary list state satisfying the invariant; the Announce comes from record 0, record 1, a third master or the own clock (symbolic choice), with any sequence id, any stepsRemoved and any age in [0, window); capacities scaled 8 -> 2
+// @note admission half of C06: own clock identity, stepsRemoved >= 255 and sequence ids not newer (modulo 2^16, window 2^15 - 1) than the record's latest leave the list unchanged; an admitted Announce of a known master is appended with the given age (oldest one evicted when the record is full) - including across 65535 -> 0; a new master gets a one-message record with age zero if there is room and is ignored otherwise (capacity: only the necessary-condition half)
+#[kani::proof]
+#[kani::unwind(9)]
+fn c06_list_register_n2_22() {
+    register_case(2, [2, 2]);
+}
+
+
+fn register_case(n: usize, cs: [usize; 2]) {
+    let own = own_identity();
+    let (mut l, m) = any_list(own, n, cs);
+    let who: u8 = kani::any();
+    kani::assume(who < 4);
+    let seq: u16 = kani::any();
+    let mut a = plain_announce(1 + who as u16, seq);
+    if who == 3 {
+        a.header.source_port_identity = PortIdentity { clock_identity: own.clock_identity, port_number: kani::any() };
+    }
+    a.steps_removed = kani::any();
+    let age: i128 = kani::any();
+    kani::assume(age >= 0 && age < WINDOW_BITS);
+    l.register_announce_message(&a.header, &a, dur(age));
+    let known = (who as usize) < m.n;
+    let last = if known { m.seq[who as usize][m.c[who as usize] - 1] } else { 0 };
+    let admitted = who != 3 && a.steps_removed < 255 && (!known || seq.wrapping_sub(last) < 32767);
+    let mut i = 0;
+    while i < 2 {
+        if i < m.n {
+            if admitted && i == who as usize {
+                if m.c[i] == 1 {
+                    assert!(record_is(&l, i, 1 + i as u16, 2, [m.seq[i][0], seq], [m.age[i][0], age]), "C06: admitted Announce not appended to its master's record with the given age");
+                } else {
+                    assert!(record_is(&l, i, 1 + i as u16, 2, [m.seq[i][1], seq], [m.age[i][1], age]), "C06: full record must evict its oldest message for the new one");
+                }
+            } else {
+                assert!(record_is(&l, i, 1 + i as u16, m.c[i], m.seq[i], m.age[i]), "C06: registration changed a record it does not concern (or a rejected Announce was stored)");
+            }
+        }
+        i += 1;
+    }
+    if admitted && !known && m.n < 2 {
+        assert!(l.foreign_masters.len() == m.n + 1 && record_is(&l, m.n, 1 + who as u16, 1, [seq, 0], [0, 0]), "C06: new master must start with a single message of age zero");
+    } else {
+        assert!(l.foreign_masters.len() == m.n, "C06: record count changed");
+    }
+    kani::cover!(admitted && known && last > 65000 && seq < 100, "known master admitted across the sequence wrap");
+    kani::cover!(!admitted && known && who != 3 && a.steps_removed < 255, "stale sequence id rejected");
+    kani::cover!(admitted && !known, "admitted Announce of an unknown master");
+    kani::cover!(who == 3, "own clock identity rejected");
     core::mem::forget(l);
 }
